@@ -38,11 +38,12 @@ type htask struct {
 	Globs []string `json:"globs,omitempty"`
 	Deps  []string `json:"deps,omitempty"`
 	// Effect: the task's commands write EffVal into file EffFile (index+1 into Files; 0 = no effect)
-	EffFile int      `json:"eff_file,omitempty"`
-	EffVal  string   `json:"eff_val,omitempty"`
-	EffFrom int      `json:"eff_from,omitempty"` // instead of EffVal: copy the content of this file (index+1)
-	Outs    []string `json:"outs,omitempty"`     // declared outputs (strings)
-	Empty   bool     `json:"empty,omitempty"`    // the task has no commands (nothing to observe but spok's own report)
+	EffFile   int      `json:"eff_file,omitempty"`
+	EffVal    string   `json:"eff_val,omitempty"`
+	EffFrom   int      `json:"eff_from,omitempty"`   // instead of EffVal: copy the content of this file (index+1)
+	Outs      []string `json:"outs,omitempty"`       // declared outputs (strings)
+	KeepMtime bool     `json:"keep_mtime,omitempty"` // the effect restores the modification time of the directory it writes into (cp -a, rsync -a, touch -r, clamped build times)
+	Empty     bool     `json:"empty,omitempty"`      // the task has no commands (nothing to observe but spok's own report)
 }
 
 // slot: tasks are told apart by name (a spokfile variant may define the same name differently):
@@ -144,6 +145,10 @@ func (p hprog) text() string {
 				eff = fmt.Sprintf("    read -r VCOPY < \"$VPROJ/%s\" && echo \"$VCOPY\" > \"$VPROJ/%s\"\n", p.Files[t.EffFrom-1].Path, p.Files[t.EffFile-1].Path)
 			}
 		}
+		if t.KeepMtime && t.EffFile > 0 {
+			dir := filepath.Dir("$VPROJ/" + p.Files[t.EffFile-1].Path)
+			eff = fmt.Sprintf("    touch -r \"%s\" \"$VCTL/stamp\"\n%s    touch -r \"$VCTL/stamp\" \"%s\"\n", dir, eff, dir)
+		}
 		outs := ""
 		if len(t.Outs) > 0 {
 			outs = " -> (\"" + strings.Join(t.Outs, "\", \"") + "\")"
@@ -233,6 +238,9 @@ func histCatalogue() []hprog {
 		{Name: "P26-task-without-commands", Tasks: []htask{{Name: "te", Lits: []string{"e.txt"}, Empty: true}, {Name: "ta", Deps: []string{"te"}, Lits: []string{"a.txt"}}}, Files: []hfile{lit("e.txt"), lit("a.txt")}},
 		// two dependencies whose names differ only in letter case
 		{Name: "P27-names-differing-in-case", Tasks: []htask{{Name: "ta", Lits: []string{"cfg.h", "Cfg.h"}}, {Name: "tb", Globs: []string{"*.H"}}}, Files: []hfile{lit("cfg.h"), lit("Cfg.h"), globf("x.H", "v0"), globf("x.h", "v0", "v1")}},
+		// a generator that leaves the modification time of the directory as it found it
+		{Name: "P28-generator-keeps-directory-time", Tasks: []htask{{Name: "ta", EffFile: 2, EffVal: "gen", KeepMtime: true}, {Name: "tb", Globs: []string{"*.src"}}},
+			Files: []hfile{globf("x.src", "v0"), globf("g.src", absent, "gen")}},
 		{Name: "P8-three-tasks", Tasks: []htask{{Name: "ta", Lits: []string{"a.txt"}}, {Name: "tb", Lits: []string{"b.txt"}}, {Name: "tc", Deps: []string{"ta", "tb"}}}, Files: []hfile{lit("a.txt"), lit("b.txt")}},
 	}
 }
@@ -1051,6 +1059,7 @@ func histSearch(sb *proj.Sandbox, p hprog, prop string, cap int, withForce bool,
 							Class: v.Class,
 							What:  fmt.Sprintf("program %s, history [%s ; %s]: %s", p.Name, traceString(states, cur), op.String(), v.What),
 							Case:  map[string]any{"program": p, "trace": tr, "prop": prop}})
+						pool.Note(res.Viol[len(res.Viol)-1])
 					}
 				}
 			}
@@ -1104,7 +1113,14 @@ func histCheck(prop, tier string) int {
 		defer os.RemoveAll(sbroot)
 		out := pool.RunWorker([]string{"hist", prop, tier, strconv.Itoa(k)}, nil, budget(tier), true, "VERIF_SANDBOX="+sbroot)
 		if out.TimedOut && out.ExitCode != 3 {
-			// the wall-clock budget ran out (a loaded machine, a slower tree): not a verdict about the property
+			// the wall-clock budget ran out (a loaded machine, a slower tree): not a verdict about the property -
+			// but what the worker had found by then is (it notes findings as it goes)
+			for _, n := range out.Notes {
+				var v ev.Violation
+				if json.Unmarshal(n, &v) == nil && v.Class != "" {
+					run.Report(v)
+				}
+			}
 			run.Add("workers_out_of_budget", 1)
 			run.Set("exhaustive", false)
 			run.Set("cap", "a worker exceeded the wall-clock budget of this tier; its share of the space was not completed")
